@@ -354,7 +354,12 @@ def generateDecl (cfg : GenCfg) : Nat → Val → G String
         let l ← asList al "align"
         pure (s ++ " ".intercalate (← l.mapM (visit cfg fuel)) ++ " ")
       else pure s
-    pure (s ++ (← generateType cfg fuel (← fld n "type") [] true))
+    let q ← fld n "quals"
+    let ty ← fld n "type"
+    let s ← if q.truthy && (ty.isCls .Struct || ty.isCls .Union || ty.isCls .Enum || ty.isCls .IdentifierType) then do
+        pure (s ++ (← joinStrs q "Decl.quals") ++ " ")
+      else pure s
+    pure (s ++ (← generateType cfg fuel ty [] true))
 
 /-- `_generate_type(n, modifiers, emit_declname)` -/
 def generateType (cfg : GenCfg) : Nat → Val → List Val → Bool → (emitType : Bool := true) → G String
